@@ -80,16 +80,16 @@ impl KeyGenerator {
     /// Construct a onetime key generator from public keys and secret random, this is used to
     /// generate onetime keys for output indexes from an address when sending funds.
     pub fn from_random(view: PublicKey, spend: PublicKey, random: PrivateKey) -> Self {
-        // Computes r*8*V
-        let rv = random * MONERO_MUL_FACTOR * &view;
+        // Computes 8*(r*V): the cofactor is cleared on the point, as in Monero's generate_key_derivation
+        let rv = PrivateKey::from_scalar(MONERO_MUL_FACTOR.into()) * &(random * &view);
         KeyGenerator { spend, rv }
     }
 
     /// Construct a onetime key generator from private keys and public random (tx pubkey), this is
     /// used to scan if some outputs contains onetime keys owned by the view pair.
     pub fn from_key(keys: &ViewPair, random: PublicKey) -> Self {
-        // Computes v*8*R
-        let rv = keys.view * MONERO_MUL_FACTOR * &random;
+        // Computes 8*(v*R): the cofactor is cleared on the point, as in Monero's generate_key_derivation
+        let rv = PrivateKey::from_scalar(MONERO_MUL_FACTOR.into()) * &(keys.view * &random);
         KeyGenerator {
             spend: keys.spend,
             rv,
